@@ -57,7 +57,10 @@ class Pools(object):
         out = b''
         for _ in range(r.randrange(1, 4)):
             l = r.randrange(1, 12)
-            out += bytes([l]) + bytes(r.choice(b'abcdefghijklmnopqrstuvwxyz0123456789-') for _ in range(l))
+            if r.random() < 0.15:
+                out += bytes([l]) + bytes(r.randrange(256) for _ in range(l))      # any octet is legal inside a label
+            else:
+                out += bytes([l]) + bytes(r.choice(b'abcdefghijklmnopqrstuvwxyz0123456789-') for _ in range(l))
         return out + b'\x00'
 
     def ip(self):
@@ -92,7 +95,7 @@ class Pools(object):
 
 
 def utf8(r, maxlen=12):
-    alphabet = ['a', 'b', 'Z', '0', ' ', '-', 'é', 'ž', '日', '本', '𝄞', ' ', 'ß']
+    alphabet = ['a', 'b', 'Z', '0', ' ', '-', '\u00e9', '\u017e', '\u65e5', '\u672c', '\U0001d11e', '\u00a0', '\u00df', '\x00', '\n', '\x7f', '"']
     return ''.join(r.choice(alphabet) for _ in range(r.randrange(0, maxlen))).encode('utf-8')
 
 
